@@ -3,7 +3,7 @@ from .pdb import strip, walk, loc, ancestors
 from .terms import Ctx, num, show, lin_add, lin_sub
 from .common import (P, F, LEN, SIZE, GT, GE, NE, effects, callee_path, callee_generic, call_args, in_macro, forwards_to, is_zero_term, OP_OF_TRAIT,
                      rule_elementwise, effective_guards, find_argmax, is_abs_term, _resolve, rule_index_kinds, single_expr_body, is_call_like)
-from .common import rule_empty_safe
+from .common import rule_empty_safe, return_paths
 from .guards import facts, cond_atoms, norm_cmp, prove_lt, prove_le
 from .guards import for_range as raw_for_range
 from .common import for_range_total as for_range
@@ -173,27 +173,51 @@ def run(rep, pdb, tier):
     V64 = "vector::Vector<f64>"
     for name, outer in (("norm_2", "sqrt"), ("norm_p", "powf")):
         fn = pdb.fn("%s::%s" % (V64, name))
-        rule = "norm_2 = sqrt(sum powf(|v_i|, 2)); norm_p = powf(sum powf(|v_i|, p), 1/p); full range, accumulator from 0"
+        rule = "norm_2 = sqrt(sum powf(|v_i|, 2)); norm_p = powf(sum powf(|v_i|, p), 1/p) (or the same with |v_i| scaled by the inf-norm and the result scaled back); full range, accumulator from 0"
         if fn is None:
             rep.missing("abs-norms/%s" % name, rule, "not found")
             continue
         ctx = Ctx.for_fn(pdb, fn)
         es = [e for e in effects(pdb, ctx) if e.kind == "assignop"]
         ok = len(es) == 1
+        scaled = False
         if ok:
             e = es[0]
             r = for_range(ctx, e.loops[0])
             pw = num(2) if name == "norm_2" else P(1)
             acc = ctx.binds.get(e.target[1])
             v = e.value
-            ok = e.op == "+=" and v[0] == "call" and str(v[1]).endswith("powf") and is_abs_term(v[2]) and v[2][2] == ("idx", VEC0, r[0]) and v[3] == pw and \
-                r[1:5] == (num(0), N0, False, False) and ctx.term(acc.init) == num(0)
-            t = ctx.term(fn["body"]["expr"])
-            if name == "norm_2":
-                ok = ok and t[0] == "call" and str(t[1]).endswith("sqrt") and t[2] == e.target
-            else:
-                ok = ok and t[0] == "call" and str(t[1]).endswith("powf") and t[2] == e.target and t[3] == ("op", "/", num(1), P(1))
-        rep.add("abs-norms/%s" % name, rule, ok, fn["body"], "", where=loc(fn["body"]))
+            NI = ("call", "%s::norm_inf" % V64, P(0))
+            res = lambda t_: (ctx.def_term(t_) if t_[0] == "var" and ctx.def_term(t_) is not None else t_)
+            elem = v[2] if v[0] == "call" and str(v[1]).endswith("powf") and len(v) == 4 else None
+            plain = elem is not None and is_abs_term(elem) and elem[2] == ("idx", VEC0, r[0])
+            # scaled form: powf(|v_i| / S, p) with S = self.norm_inf(), result S * root(sum)
+            S = None
+            if elem is not None and elem[0] == "op" and elem[1] == "/" and is_abs_term(elem[2]) and elem[2][2] == ("idx", VEC0, r[0]) and res(elem[3]) == NI:
+                S = elem[3]
+            ok = e.op == "+=" and elem is not None and (plain or S is not None) and v[3] == pw and r[1:5] == (num(0), N0, False, False) and ctx.term(acc.init) == num(0)
+            paths = return_paths(ctx)
+            root = ("call", None)
+            good_tail = False
+            for fs_, t, node_ in paths:
+                if name == "norm_2":
+                    isroot = lambda x: x[0] == "call" and str(x[1]).endswith("sqrt") and x[2] == e.target
+                else:
+                    isroot = lambda x: x[0] == "call" and str(x[1]).endswith("powf") and x[2] == e.target and x[3] == ("op", "/", num(1), P(1))
+                if S is None and isroot(t):
+                    good_tail = True
+                elif S is not None and t[0] == "op" and t[1] == "*" and ((t[2] == S and isroot(t[3])) or (t[3] == S and isroot(t[2]))):
+                    good_tail = True
+                elif S is not None and t in (S, num(0)):
+                    pass            # early return of the scale itself when it is 0 (or not finite)
+                else:
+                    good_tail = good_tail and False
+            ok = ok and good_tail
+            scaled = ok and S is not None
+        rep.add("abs-norms/%s" % name, rule, ok, fn["body"], "scaled by the inf-norm: %s" % scaled, where=loc(fn["body"]))
+        rep.add("abs-norms/%s/range" % name, "the p-th powers are taken of |v_i| / norm_inf (each term <= 1), so the sum cannot overflow to inf or underflow to 0 for finite data: "
+                "the norms keep inf-norm <= 2-norm <= 1-norm and homogeneity `for all data`, not only for |v_i| within about 1e+-154 (p = 2)",
+                scaled, fn["body"], "unscaled sum of powf(|v_i|, p)" if not scaled else "scaled", where=loc(fn["body"]))
     for path in ("%s::norm_inf" % V64, "vector::Vector<complex::Complex<f64>>::norm_inf"):
         check_norm_inf(rep, pdb, path, "abs-norms/norm_inf/%s" % ("f64" if "Complex" not in path else "Cmplx"))
     # ---- find
